@@ -394,3 +394,21 @@ def repo_src():
     if spec is None or not spec.submodule_search_locations:
         raise InfraError("precondition package not importable")
     return list(spec.submodule_search_locations)[0]
+
+
+def acquire_run_slot():
+    """Machine-wide throttle: at most VERIF_RUN_SLOTS (default 3) checks run concurrently (each uses up to
+    14 worker processes). Returns the held lock file (released when the process exits)."""
+    import fcntl
+    k = int(os.environ.get("VERIF_RUN_SLOTS", "3"))
+    d = os.path.join(WORK, "slots")
+    os.makedirs(d, exist_ok=True)
+    fds = [open(os.path.join(d, f"{i}.lock"), "w") for i in range(k)]
+    while True:
+        for f in fds:
+            try:
+                fcntl.flock(f, fcntl.LOCK_EX | fcntl.LOCK_NB)
+                return f
+            except BlockingIOError:
+                pass
+        time.sleep(3)
